@@ -19,6 +19,8 @@ def run(ctx):
     exp = ctx.path('hist.out')
     open(exp, 'w').write(out)
 
+    histcommon.cfg_probe(ctx, exe)
+
     def keyfn(r):
         if r['why'] == 'unapplicable-section-not-a-configuration-error':
             return '%s:%s-section' % (r['lint'], r['info'])
@@ -26,6 +28,19 @@ def run(ctx):
             return 'escape:%s' % r['event'].get('kind')
         return '%s:%s' % (r['lint'] or r['event']['ev'], r['why'])
     s, nev = histcommon.judge(ctx, exe, 'config,model', 'c11', WANTED, keyfn, export=exp)
+    # configuration must not leak between runs either: one process per first configuration, merged per object
+    from concurrent.futures import ThreadPoolExecutor
+    with ThreadPoolExecutor(max_workers=6) as ex:
+        res = list(ex.map(lambda p: histcommon.run_history(ctx, exe, 'cfgfirst', 'cfgfirst%d' % p, env2={'VERIF_FIRSTCFG': str(p)}), range(6 if ctx.quick else 16)))
+    merged = ctx.path('cfgfirst-merged.ndjson')
+    histcommon.merge_by_object([os.path.join(d, 'history.ndjson') for (d, _) in res], merged)
+    rej, _ = histcommon.validate(ctx, merged, shards=4)
+    seen = set()
+    for r in rej:
+        if r['why'] in WANTED and keyfn(r) not in seen:
+            seen.add(keyfn(r))
+            vlib.report(ctx, keyfn(r), '%s: %s on %s: first seen under [%s], now [%s] (processes that met the configurations in different orders)' % (
+                r['lint'], r['why'], r['event'].get('obj'), r['info'], r['event'].get('tag')), dict(kind='history', phases='cfgfirst', obj=r['event'].get('obj'), lint=r['lint'], why=r['why']))
     keep = []
     for v in ctx.violations:
         rp = json.load(open(v['replay']))['replay']
